@@ -49,6 +49,9 @@ type cpVar struct {
 type cpGen struct {
 	fset    *token.FileSet
 	helpers map[string]*ast.FuncDecl // func f(s string) bool { return … }
+	// msgMode: translate to the type of the PanicError's message (PanicMsg) instead of the Outcome
+	msgMode    bool
+	rtErrFuncs map[string]bool // functions and methods of errors.go that return runtimeError
 }
 
 func (g *cpGen) src(n ast.Node) string {
@@ -110,7 +113,41 @@ func (g *cpGen) msgOperand(e ast.Expr, env cpEnv) error {
 			return nil
 		}
 	}
+	// err.Error() of the payload narrowed to an error type: the same text
+	if call, ok := e.(*ast.CallExpr); ok && len(call.Args) == 0 {
+		if sel, ok := call.Fun.(*ast.SelectorExpr); ok && sel.Sel.Name == "Error" {
+			if id, ok := sel.X.(*ast.Ident); ok {
+				if v, ok := env[id.Name]; ok && v.kind == "payload" && (v.typ == "runtime.Error" || v.typ == "error" || v.typ == "runtimeError") {
+					return nil
+				}
+			}
+		}
+	}
 	return g.errf(e, "operand is not the panic message")
+}
+
+// panicMsgKind is the type of the message given to vm.newPanic: Scriggo's own runtimeError
+// (.scriggo) or the recovered value itself (.same).
+func (g *cpGen) panicMsgKind(arg ast.Expr, env cpEnv) (string, error) {
+	switch a := arg.(type) {
+	case *ast.CallExpr:
+		name := g.src(a.Fun)
+		if name == "runtimeError" || g.rtErrFuncs[strings.TrimPrefix(name, "vm.")] {
+			return ".scriggo", nil
+		}
+	case *ast.Ident:
+		if v, ok := env[a.Name]; ok {
+			if v.kind == "payload" {
+				if v.typ == "runtimeError" {
+					return ".scriggo", nil
+				}
+				return ".same", nil
+			}
+		} else if a.Name == "msg" {
+			return ".same", nil
+		}
+	}
+	return "", g.errf(arg, "message of the new PanicError (expected runtimeError(…), a function returning runtimeError, or the recovered value)")
 }
 
 func (g *cpGen) strLit(e ast.Expr) (string, error) {
@@ -242,16 +279,29 @@ func (g *cpGen) stmts(list []ast.Stmt, env cpEnv, k, kBreak string) (string, err
 			return "", g.errf(s, "return")
 		}
 		r := x.Results[0]
-		if call, ok := r.(*ast.CallExpr); ok && g.src(call.Fun) == "vm.newPanic" {
+		if call, ok := r.(*ast.CallExpr); ok && g.src(call.Fun) == "vm.newPanic" && len(call.Args) == 1 {
+			kind, err := g.panicMsgKind(call.Args[0], env)
+			if err != nil {
+				return "", err
+			}
+			if g.msgMode {
+				return kind, nil
+			}
 			return ".panicError", nil
 		}
 		if u, ok := r.(*ast.UnaryExpr); ok && u.Op == token.AND {
 			if cl, ok := u.X.(*ast.CompositeLit); ok && g.src(cl.Type) == "fatalError" {
+				if g.msgMode {
+					return ".none", nil
+				}
 				return ".fatal", nil
 			}
 		}
 		if id, ok := r.(*ast.Ident); ok {
 			if v, ok := env[id.Name]; ok && v.kind == "payload" {
+				if g.msgMode && (v.typ == "stopError" || v.typ == "*fatalError" || v.typ == "error") {
+					return ".none", nil
+				}
 				switch v.typ {
 				case "stopError":
 					return ".stop", nil
@@ -466,6 +516,9 @@ func (g *cpGen) opSwitch(x *ast.SwitchStmt, env cpEnv, kRest string) (string, er
 		}
 		cpArms = append(cpArms, arm)
 	}
+	if g.msgMode {
+		return "(panicMsgOp op neg nativeCallee p)", nil
+	}
 	return "(classifyOp op neg nativeCallee p)", nil
 }
 
@@ -541,7 +594,7 @@ def passErr : Payload → Outcome
 
 func genConvertPanic(repo string) (string, error) {
 	fset := token.NewFileSet()
-	g := &cpGen{fset: fset, helpers: map[string]*ast.FuncDecl{}}
+	g := &cpGen{fset: fset, helpers: map[string]*ast.FuncDecl{}, rtErrFuncs: map[string]bool{}}
 	errFile, err := parser.ParseFile(fset, filepath.Join(repo, "internal/runtime/errors.go"), nil, 0)
 	if err != nil {
 		return "", err
@@ -557,6 +610,9 @@ func genConvertPanic(repo string) (string, error) {
 	var convert, run *ast.FuncDecl
 	for _, d := range errFile.Decls {
 		if fd, ok := d.(*ast.FuncDecl); ok {
+			if fd.Type.Results != nil && len(fd.Type.Results.List) == 1 && g.src(fd.Type.Results.List[0].Type) == "runtimeError" {
+				g.rtErrFuncs[fd.Name.Name] = true
+			}
 			if fd.Name.Name == "convertPanic" && fd.Recv != nil {
 				convert = fd
 			} else if fd.Recv == nil && fd.Type.Results != nil && len(fd.Type.Results.List) == 1 && g.src(fd.Type.Results.List[0].Type) == "bool" {
@@ -632,6 +688,26 @@ func genConvertPanic(repo string) (string, error) {
 	if strings.Contains(mainExpr, sentinel) {
 		return "", fmt.Errorf("shape not recognised: break outside a switch in convertPanic")
 	}
+	// second pass: the type of the message of the PanicError, with the same structure
+	g.msgMode = true
+	noFnMsg, err := g.stmts(noFn.Body.List, cpEnv{}, sentinel, sentinel)
+	if err != nil {
+		return "", err
+	}
+	tailMsg, err := g.stmts(tail, cpEnv{}, sentinel, sentinel)
+	if err != nil {
+		return "", err
+	}
+	opCallMsg, err := g.stmts([]ast.Stmt{opSw}, cpEnv{}, "(tailMsg p)", "(tailMsg p)")
+	if err != nil {
+		return "", err
+	}
+	armsMsg := cpArms
+	mainMsg, err := g.stmts(before, cpEnv{}, "(if hasFn then "+opCallMsg+" else panicMsgNoFn p)", sentinel)
+	if err != nil {
+		return "", err
+	}
+	g.msgMode = false
 	known := map[string]bool{}
 	for _, o := range ops {
 		known[o] = true
@@ -677,6 +753,17 @@ func genConvertPanic(repo string) (string, error) {
 	b.WriteString("  | _, _ => tail p\n\n")
 	b.WriteString("/-- convertPanic -/\n")
 	fmt.Fprintf(&b, "def classify (hasFn : Bool) (op : Op) (neg nativeCallee : Bool) (p : Payload) : Outcome :=\n  %s\n\n", mainExpr)
+
+	b.WriteString("/-! The type of the message of the *PanicError that convertPanic makes (`vm.newPanic(…)`), with the\nsame structure as the classification: the wrapper of a Scriggo function called by native code\n(callable.Value) re-panics with this message in the native caller. -/\n")
+	b.WriteString("inductive PanicMsg where\n  | none     -- no *PanicError is made\n  | scriggo  -- Scriggo's own runtimeError (`runtimeError(…)`, `vm.errIndexOutOfRange()`, …)\n  | same     -- the recovered value itself\n  deriving DecidableEq, Repr\n\n")
+	fmt.Fprintf(&b, "def tailMsg (p : Payload) : PanicMsg :=\n  %s\n\n", tailMsg)
+	fmt.Fprintf(&b, "def panicMsgNoFn (p : Payload) : PanicMsg :=\n  %s\n\n", noFnMsg)
+	b.WriteString("def panicMsgOp (op : Op) (neg nativeCallee : Bool) (p : Payload) : PanicMsg :=\n  match op, neg with\n")
+	for _, a := range armsMsg {
+		fmt.Fprintf(&b, "  | %s =>\n    %s\n", strings.Join(a.ops, " | "), a.body)
+	}
+	b.WriteString("  | _, _ => tailMsg p\n\n")
+	fmt.Fprintf(&b, "def panicMsg (hasFn : Bool) (op : Op) (neg nativeCallee : Bool) (p : Payload) : PanicMsg :=\n  %s\n\n", mainMsg)
 
 	// ---- VM.Run
 	table, err := g.runTable(run)
